@@ -60,6 +60,12 @@ CHECKS = {
         text='The three correction functions are translated from src/ffpack/lcc/meanStressCorrection.py into one generic-scalar Lean definition each on every run. Theorems at the reals, for every admissible range, strength and n >= 1: Goodman sa/s + sm/su = 1/n, Soderberg sa/s + sm/sy = 1/n, Gerber n*sa/s + (n*sm/su)^2 = 1; value sa at zero mean and n = 1; degree-one homogeneity; growth with n and with the mean stress; Gerber <= Goodman <= Soderberg for sy <= su. A change of the Python formula changes the generated text and the proofs are re-checked; the defining equations are also evaluated on the implementation (failing-input search) and the raise-guards are compared with the generated _ok predicate.',
         note='Trusted: Lean kernel + standard axioms + Mathlib; harness/translate.py (validated each run: Float instance of the generated text vs the Python function, 1e-11 relative, and guard outcome); real arithmetic stands for binary64 (residuals checked at 1e-9); isinstance/shape guards are not modelled.',
         ref='§5 C09'),
+    'C18': dict(
+        engine='formula',
+        technique='Lean 4 proof over the reals about definitions REGENERATED from the Python source on every run (21 translated variants of the ten spectra), translation validation at Float, numerical quadrature of the implementation as failing-input search',
+        text='Theorems at the reals about the regenerated definitions: non-negativity of all ten spectra on the admissible domain; ISSC, Gaussian-swell and JONSWAP (beta = 5/4, gamma >= 1) are maximal at the stated peak frequency; JONSWAP = (gamma = 1 form) x gamma^r with the factor in [1, gamma] and equal to gamma at the peak; each normalised wind spectrum equals f*S(f)/scale of the dimensional one at the reduced frequency (Davenport x2, EC1 x5 terrain categories, IEC x3 components). Area theorems (documented variance) are in Proofs/C18Areas.lean where proved; every area, peak and relation is also evaluated numerically on the implementation (quadrature), which is what exhibits a failing input when a constant or exponent is edited and a proof breaks.',
+        note='Trusted: Lean kernel + standard axioms + Mathlib; harness/translate.py validated each run at Float (1e-9 relative, Gamma by Lanczos in the Float instance only); for the two Davenport forms the normalising scale is kappa*U^2 resp. u*^2 (= variance/6) as in the code, its documentation and the source paper (DESIGN §7); clauses whose area theorem is not yet proved are decided by quadrature only (listed in the evidence).',
+        ref='§5 C18'),
 }
 
 NOT_YET = {}
